@@ -656,7 +656,7 @@ class Fxp():
 
         """
 
-        x = self.copy()
+        x = self.deepcopy()     # (an independent object: it shares no configuration or status with this one)
         x.val = x.val.flatten(order)
         return x
 
@@ -1974,7 +1974,7 @@ class Fxp():
 
     @property
     def T(self):
-        x = self.copy()
+        x = self.deepcopy()     # (an independent object, like np.transpose(x): it shares no configuration, status or values with this one)
         x.val = x.val.T
         return x    
     
